@@ -30,11 +30,17 @@ def reverse_dfs_recursive(state: int, reversed_transitions: dict, reaching_state
             rec_reaching_states: the list of states that reach the input state (or a final state)
     """
     rec_reaching_states = reaching_states.copy()
-    rec_reaching_states.append(state)
-    for next_state in reversed_transitions[state]:
-        if next_state not in reaching_states:
-            rec_reaching_states = reverse_dfs_recursive(
-                next_state, reversed_transitions, rec_reaching_states)
+    visited = set(rec_reaching_states)
+    # explicit stack instead of recursion: deep graphs must not hit the recursion limit,
+    # and membership is tested against the states collected so far, so none is added twice
+    pending = [state]
+    while pending:
+        current_state = pending.pop()
+        if current_state in visited:
+            continue
+        visited.add(current_state)
+        rec_reaching_states.append(current_state)
+        pending.extend(reversed(reversed_transitions[current_state]))
     return rec_reaching_states
 
 
